@@ -1,4 +1,5 @@
 CONSTANT Instance = "plonk"
+CONSTANT NL = 2
 CONSTANT Disabled = {"Final"}
 CONSTANT Mutant = "none"
 INIT Init
